@@ -7,6 +7,7 @@ package main
 //   mode scan  (C01 read side) every reader returns the spec's roots and (cid, bytes) sequence
 
 import (
+	"bufio"
 	"bytes"
 	"encoding/json"
 	"errors"
@@ -271,7 +272,7 @@ func runIdxCase(x *acCtx, c *acCase) {
 						}
 					}
 				}
-				sources := []string{"bytes.Reader", "os.File", "plain io.Reader", "fromFile"}
+				sources := []string{"bytes.Reader", "os.File", "plain io.Reader", "bufio.Reader", "bytes.Buffer", "fromFile"}
 				for _, src := range sources {
 					var idx index.Index
 					var err error
@@ -282,6 +283,10 @@ func runIdxCase(x *acCtx, c *acCase) {
 						case "os.File":
 							f, _ := os.Open(path)
 							return f, func() { f.Close() }
+						case "bufio.Reader": // a stream that is also an io.ByteReader
+							return bufio.NewReaderSize(&plainReader{bytes.NewReader(file)}, 16), func() {}
+						case "bytes.Buffer":
+							return bytes.NewBuffer(append([]byte{}, file...)), func() {}
 						default:
 							return &plainReader{bytes.NewReader(file)}, func() {}
 						}
